@@ -35,6 +35,8 @@ structure Env where
       number of pattern characters it consumes. -/
   bracket : Text → Option ((Nat → Bool) × Nat)
   seqPos : Bool → Nat → Bool → List Q → Doc → Bool
+  /-- which documents a span query (an opaque leaf, identified by its canonical text) matches -/
+  opq : List Nat → Doc → Bool
   index : List Doc
 
 /-- Any term in the field (`Every(fieldname)`: union of all postings of the field). -/
@@ -110,6 +112,9 @@ def sat (env : Env) : Q → Doc → Bool
   | .bin .require a b, d => sat env a d && sat env b d
   | .bin .otherwise a b, d => if env.index.any (sat env a) then sat env a d else sat env b d
   | .const q _, d => sat env q d
+  -- a span query that reports a field only matches documents that have a term in it
+  | .opq none c, d => env.opq c d
+  | .opq (some f) c, d => hasField d f && env.opq c d
 def satAll (env : Env) : List Q → Doc → Bool
   | [], _ => true
   | q :: qs, d => sat env q d && satAll env qs d
